@@ -157,6 +157,15 @@ def run(ctx):
             continue
         seen.add(m["target"])
         vlib.violation(ctx, "a statement that fails changed a container: `%s` -> %s; before %s, after %s" % (m["stmt"], m["error"], m["before"][:200], m["after"][:200]), {"kind": "law", "stmt": m["stmt"], "mismatch": m})
+    # "slices and maps are reference values when assigned or passed": every way a container can travel x kind of container, a store through the far end
+    refp = os.path.join(ctx.work, "refs.json")
+    vlib.run_cmd(ctx, [binp, "refs", refp], timeout=900)
+    rf = json.load(open(refp))
+    ctx.cov["evaluations"] += rf["cases"]
+    ctx.cov["traces_validated_against_impl"] += rf["cases"]
+    ctx.cov["reference_travel"] = {"programs": rf["cases"], "mismatches": rf["n_mismatch"]}
+    for m in (rf.get("mismatches") or [])[:8]:
+        vlib.violation(ctx, "a container handed over by %s (%s) is not the container itself: expected %s, got %s\n%s" % (m["travel"], m["kind"], m["want"], m["got"], m["src"]), {"kind": "refs", "travel": m["travel"], "ckind": m["kind"], "mismatch": m})
     ntr, length = (400, 30) if ctx.quick() else (6000, 40)
     shards = 8
     def gen(k):
@@ -248,6 +257,13 @@ def run(ctx):
 def replay(ctx, path):
     binp = vlib.build_harness(ctx, "contharness")
     p = json.load(open(path))
+    if p.get("kind") == "refs":
+        refp = os.path.join(ctx.work, "refs.json")
+        vlib.run_cmd(ctx, [binp, "refs", refp], timeout=900)
+        bad = any(m["travel"] == p["travel"] and m["kind"] == p["ckind"] for m in (json.load(open(refp)).get("mismatches") or []))
+        if bad:
+            print("VIOLATION property=%s replay=%s" % (ctx.id, path))
+        return 1 if bad else 0
     if p.get("kind") == "law":
         lawp = os.path.join(ctx.work, "law.json")
         vlib.run_cmd(ctx, [binp, "law", lawp], timeout=900)
